@@ -54,6 +54,86 @@ void h_comp_end_dchunk(void) {
     V_COVER(r >= 1 && in.valid0 == -1);
 }
 
+/* ---- reader with a chunk list of up to three entries (RD_WF) ------------------------------------ */
+typedef struct {
+    int err0, mode, ctype, htype, fd, comp_type, started, eof0, uncomp_src;
+    int n_nodes;                 /* 1..3 */
+    size_t clen[3], len[3]; int valid[3];
+    int cur;                     /* -1 = NULL, 0..2 */
+    size_t data_loc0, data_size0, dc_size0, dc_loc0, dst_size, data_offset;
+    int dst_null, use_dict, dict_set, cctx_live, cfull_live, cfull_typed, cchunk_typed, watch_full;
+    size_t hu_total0, hu_k, k1; int hu_seen0, hu_final0, hu_inits0;
+    g_off_t pos0[G_NFD]; size_t rd0[G_NFD]; int failed0;
+} IN_rd;
+V_INPUT(IN_rd)
+
+static zckChunk *g_nodes[3];
+static zckCtx *mk_reader3(IN_rd *in) {
+    V_ASSUME(in->err0 >= 0 && in->err0 <= 2 && SPEC_HASH_VALID(in->ctype) && SPEC_HASH_VALID(in->htype));
+    V_ASSUME(in->hu_final0 >= 0 && in->hu_final0 < 1000 && in->hu_inits0 >= 0 && in->hu_inits0 < 1000 && in->hu_seen0 >= 0 && in->hu_seen0 < 1000);
+    V_ASSUME(in->n_nodes >= 1 && in->n_nodes <= 3 && in->cur >= -1 && in->cur < in->n_nodes);
+    V_ASSUME(in->comp_type == ZCK_COMP_NONE || in->comp_type == ZCK_COMP_ZSTD);
+    zckCtx *zck = calloc(1, sizeof(*zck));
+    V_ASSUME(zck != NULL);
+    zck->mode = in->mode; zck->error_state = in->err0; zck->fd = in->fd; zck->data_offset = in->data_offset;
+    zck->has_uncompressed_source = in->uncomp_src;
+    zck->chunk_hash_type.type = in->ctype; zck->chunk_hash_type.digest_size = SPEC_DIGEST_SIZE(in->ctype);
+    zck->hash_type.type = in->htype; zck->hash_type.digest_size = SPEC_DIGEST_SIZE(in->htype);
+    size_t start = 0; zckChunk *prev = NULL;
+    for(int i = 0; i < 3; i++) {
+        g_nodes[i] = NULL;
+        if(i < in->n_nodes) {
+            zckChunk *c = calloc(1, sizeof(*c));
+            V_ASSUME(c != NULL);
+            c->zck = zck; c->digest_size = SPEC_DIGEST_SIZE(in->ctype);
+            c->digest = malloc(c->digest_size);
+            V_ASSUME(c->digest != NULL);
+            c->comp_length = in->clen[i]; c->length = in->len[i]; c->valid = in->valid[i]; c->start = start; c->number = i;
+            start += in->clen[i];
+            if(prev) prev->next = c; else zck->index.first = c;
+            prev = c; g_nodes[i] = c;
+        }
+    }
+    zck->index.last = prev; zck->index.count = in->n_nodes;
+    zck->comp.data_idx = in->cur < 0 ? NULL : g_nodes[in->cur];
+    zck->comp.type = in->comp_type; zck->comp.started = in->started; zck->comp.data_eof = in->eof0;
+    zck->comp.data_loc = in->data_loc0;
+    V_ASSUME(in->dc_loc0 <= in->dc_size0 && in->dc_size0 <= 64 && in->data_size0 <= 64);
+    if(in->dc_size0) { zck->comp.dc_data = malloc(in->dc_size0); V_ASSUME(zck->comp.dc_data != NULL); }
+    zck->comp.dc_data_size = in->dc_size0; zck->comp.dc_data_loc = in->dc_loc0;
+    if(in->data_size0) { zck->comp.data = malloc(in->data_size0); V_ASSUME(zck->comp.data != NULL); }
+    zck->comp.data_size = in->data_size0;
+    if(in->dict_set) { zck->comp.dict = malloc(1); V_ASSUME(zck->comp.dict != NULL); zck->comp.dict_size = 1; }
+    zck->comp.end_dchunk = verif_end_dchunk; zck->comp.decompress = verif_decompress;
+    if(in->cctx_live) { zck->check_chunk_hash.ctx = malloc(1); V_ASSUME(zck->check_chunk_hash.ctx != NULL); }
+    if(in->cchunk_typed) zck->check_chunk_hash.type = &zck->chunk_hash_type;
+    if(in->cfull_live) { zck->check_full_hash.ctx = malloc(1); V_ASSUME(zck->check_full_hash.ctx != NULL); }
+    if(in->cfull_typed) zck->check_full_hash.type = &zck->hash_type;
+    g_hu_hash = in->watch_full ? &zck->check_full_hash : &zck->check_chunk_hash;
+    g_hu_total = in->hu_total0; g_hu_k = in->hu_k; g_hu_seen = in->hu_seen0;
+    g_hu_final = in->hu_final0; g_hu_inits = in->hu_inits0; g_k1 = in->k1;
+    for(int i = 0; i < G_NFD; i++) { g_fpos[i] = in->pos0[i]; g_rd_bytes[i] = in->rd0[i]; }
+    V_ASSUME(in->failed0 == 0 || in->failed0 == 1);
+    g_io_failed = in->failed0;
+    return zck;
+}
+
+void h_comp_read(void) {
+    IN_rd in = nondet_IN_rd();
+    zckCtx *zck = mk_reader3(&in);
+    V_ASSUME(in.dst_size <= 64);
+    char *dst = in.dst_null ? NULL : malloc(in.dst_size);
+    V_ASSUME(in.dst_null || dst != NULL);
+    ssize_t r = comp_read(zck, dst, in.dst_size, in.use_dict != 0);
+    V_COVER(r > 0 && (size_t)r == in.dst_size && in.cur == -1);                  /* full buffer, started from a fresh reader */
+    V_COVER(r > 0 && (size_t)r < in.dst_size && zck->comp.data_eof);             /* short read at end of data */
+    V_COVER(r == 0 && in.dst_size > 0);
+    V_COVER(r == -1 && in.err0 == 0 && in.mode == ZCK_MODE_READ && in.started);  /* failure arising inside the loop */
+    V_COVER(r > 0 && in.cur == 0 && zck->comp.data_idx == g_nodes[1] && in.comp_type == ZCK_COMP_ZSTD);   /* crossed a chunk boundary (zstd) */
+    V_COVER(r > 0 && in.cur == 1 && zck->comp.data_idx == g_nodes[2] && in.comp_type == ZCK_COMP_NONE);   /* crossed a chunk boundary (nocomp) */
+    V_COVER(r > 0 && in.watch_full && g_rd_bytes[G_IX(in.fd)] > in.rd0[G_IX(in.fd)]);
+}
+
 #ifdef VERIF_NATIVE
 #include "replay_in.h"
 #endif
